@@ -249,7 +249,6 @@ inductive IssueFor
 
 namespace Go
 instance : Nilable OPClient := ⟨fun _ => false⟩
-def any {α : Type} (l : List α) (p : α → Bool) : Bool := l.any p
 end Go
 
 namespace Hand
